@@ -32,6 +32,7 @@ def shards(tier):
         {"name": "shadow.np.jit", "mode": "jit", "backend": "np", "fn": "shadow", "n": 120 if q else 6000},
         {"name": "shadow.np.interp", "mode": "interp", "backend": "np", "fn": "shadow", "n": 30 if q else 800},
         {"name": "live.np.jit", "mode": "jit", "backend": "np", "fn": "live", "n": 40 if q else 2500},
+        {"name": "big.np.jit", "mode": "jit", "backend": "np", "fn": "big", "n": 1 if q else 12},
     ]
     if not q:
         for k in range(4):
@@ -210,6 +211,37 @@ def run_shadow(shard, rec, B):
                     G.apply_map(*O.map_inverse(mg, mp))
                 rec.check("snap.povm_fixed", O.state_key(pg, pp, pr) == G.key(), case, True)
         rec.check("snap.base_untouched", not snap_diff(before, snapshot(base)), desc, True, observed=snap_diff(before, snapshot(base)))
+        # the same (fixed) measurement circuit is extended and used again: the basis must follow the circuit as it is NOW
+        if kind.startswith("fixed"):
+            more = PR.rand_program(rng, N, int(rng.integers(1, 4)))
+            for sp_ in more:
+                circ.take(PR.make_gate(B, sp_, N))
+            if circ.forward_map is not None:
+                circ.compile()          # documented: recompile after changing a compiled circuit
+            prog2 = prog + more
+            yielded2 = []
+            orig2 = circ.povm
+
+            def rec_povm2(nsample, _orig=orig2):
+                for st_ in _orig(nsample):
+                    g_, p_, r_ = B.state(st_)
+                    yielded2.append((g_.copy(), p_.copy(), r_))
+                    yield st_
+            circ.povm = rec_povm2
+            ok, snaps2 = rec.attempt("snap.grown", desc, lambda: list(CS(base, circ).snapshots(3)))
+            circ.povm = orig2
+            if ok:
+                G2 = O.GroupState(N, [(zrow(a, N), 0) for a in range(N)])
+                for sp_ in reversed(prog2):
+                    mg_, mp_ = PR.spec_map_any(B, sp_, N)
+                    G2.apply_map(*O.map_inverse(mg_, mp_))
+                for i, (sn, (pg, pp, pr)) in enumerate(zip(snaps2, yielded2)):
+                    g, p, rr = B.state(sn)
+                    cgs, _ = O.canon_group(g[rr:N], p[rr:N])
+                    good = not O.tableau_problems(g, p, rr) and O.state_key(pg, pp, pr) == G2.key() and rr == 0 \
+                        and all(O.group_contains(cgs, np.array(x)) is not None for x, _ in G2.key()[1])
+                    rec.check("snap.grown", good, dict(desc, i=i, added=[PR.describe(x)["kind"] for x in more]), True,
+                              expected="snapshots in the basis of the extended circuit")
         # random circuits resample: over the 5 snapshots more than one basis must occur (probability of a false alarm < 1e-9 for N>=2 global)
         if kind == "global" and N >= 4:
             keys = set(O.state_key(a, b, c)[1] for a, b, c in yielded)
@@ -242,3 +274,55 @@ def run_live(shard, rec, B):
                 dg, dp, dc = B.np(DM.gs).reshape(-1, 2 * N), B.ph(DM.ps), B.cnp(DM.cs)
                 rec.check("live.dm", len(dg) == 2 ** len(G.gens) and O.close(O.dense_poly(dg, dp, dc), G.rho()), case, True)
         live.walk(rec, B, rng, N, int(rng.integers(4, 14)), query)
+
+
+def run_big(shard, rec, B):
+    """wide registers: sample membership / sign by the canonical-group oracle, long sample lists, density-matrix expansion of
+    large-N states of small group size, snapshots of wide states with on-site and fixed circuits."""
+    rng = gen.rng_for(rec)
+    C, CS = B.circuit, B.lib.ClassicalShadow
+    for t in range(shard["n"]):
+        for N in (33, 64, 65, 70, 130):
+            for r in (0, N - 5, N // 2):
+                tg, tp, _ = O.random_tableau(rng, N, r=r, nrot=N // 2)
+                check_state(rec, B, tg, tp, r, rng, nsamp=[5, 300][int(rng.integers(2))], uniform=False)
+        # density-matrix expansions of groups with 2^8 .. 2^17 elements: count, distinctness, closure under the generators'
+        # row space, weights, and signs of a sample of terms (term-by-term dense comparison is impossible here)
+        for k in ([8, 9, 10, 12] if shard["n"] <= 1 else [8, 9, 10, 12, 15, 16, 17]):
+            N = k + int(rng.integers(0, 3))
+            r = N - k
+            tg, tp, _ = O.random_tableau(rng, N, r=r, nrot=2 * N)
+            S = B.State(tg.copy(), tp.copy(), r)
+            sc = {"N": N, "r": r, "group_log2": k}
+            ok, DM = rec.attempt("dm.big", sc, lambda: S.density_matrix)
+            if ok:
+                dg, dp, dc = B.np(DM.gs).reshape(-1, 2 * N), B.ph(DM.ps), B.cnp(DM.cs)
+                uniq = np.unique(dg, axis=0)
+                cg, _ = O.canon_group(tg[r:N], tp[r:N])
+                inside = O.gf2rank(np.concatenate([tg[r:N], uniq[rng.integers(0, len(uniq), 60)]])) == k
+                wts = np.allclose(np.abs(dc), 2.0 ** (-N))
+                signs = True
+                for j in rng.integers(0, len(dg), 80):
+                    ph = O.group_contains(cg, dg[j])
+                    if ph is None or abs(dc[j] * 1j ** int(dp[j]) - (1j ** ph) * 2.0 ** (-N)) > 1e-12:
+                        signs = False
+                        break
+                rec.check("dm.big", len(dg) == 2 ** k and len(uniq) == 2 ** k and inside and wts and signs, sc, True,
+                          expected="%d distinct group elements, weight 2^-N, right signs" % 2 ** k,
+                          observed={"terms": len(dg), "distinct": len(uniq), "in_group": bool(inside), "weights": bool(wts), "signs": bool(signs)})
+        for N in (33, 64, 65, 70, 130):
+            if N <= 70:
+                tg, tp, _ = O.random_tableau(rng, N, r=int(rng.integers(0, 3)), nrot=8)
+                base = B.State(tg.copy(), tp.copy(), 0)
+                before = snapshot(base)
+                prog, hot = PR.wide_program(rng, N, 5)
+                circ = C.identity_circuit(N)
+                for sp_ in prog:
+                    circ.take(PR.make_gate(B, sp_, N))
+                for kind, cc in (("fixed", circ), ("onsite", C.onsite_rcc(N))):
+                    ok, snaps = rec.attempt("snap", [kind, N], lambda: list(CS(base, cc).snapshots(2)))
+                    if ok:
+                        for sn in snaps:
+                            g, p, rr = B.state(sn)
+                            rec.check("snap.valid", not O.tableau_problems(g, p, rr) and rr == 0, ["big", kind, N], True, observed=O.tableau_problems(g, p, rr))
+                rec.check("snap.base_untouched", not snap_diff(before, snapshot(base)), ["big", N], True)
